@@ -72,10 +72,11 @@ theorem qos2_publish_is_only_recorded (s : RState) (id : Nat) (cid : String) (p 
   · have := (handlePacket_publish_appended hp).1
     simpa [h1, hq] using this
 
-/-- PUBREL (the client releases a QoS 2 publish): exactly one PUBCOMP with the same packet id -/
-theorem pubrel_gets_one_pubcomp (s s' : RState) (id : Nat) (cid : String) (pkid : Nat) (fl fl' : Flags)
+/-- PUBREL (the client releases a QoS 2 publish), with or without MQTT 5 properties (`hp`):
+    exactly one PUBCOMP with the same packet id -/
+theorem pubrel_gets_one_pubcomp (s s' : RState) (id : Nat) (cid : String) (pkid : Nat) (hp : Bool) (fl fl' : Flags)
     (c : Conn) (hc : getConn s id = some c)
-    (h : handlePacket s id cid (.pubrel pkid false) fl = .ok (s', fl')) :
+    (h : handlePacket s id cid (.pubrel pkid hp) fl = .ok (s', fl')) :
     acksOf s' id = some (c.acks.committed ++ [Ack.pubcomp pkid]) ∧ Appended s s' id [Ack.pubcomp pkid] := by
   have a := handlePacket_pubrel_appended h
   exact ⟨a.acksOf hc, a⟩
@@ -115,17 +116,18 @@ theorem pingreq_gets_one_pingresp (s s' : RState) (id : Nat) (cid : String) (fl 
   obtain ⟨a, b, _⟩ := handlePacket_pingreq_appended h
   exact ⟨a.acksOf hc, a, b⟩
 
-/-- packets that require no reply get none: QoS 0 PUBLISH, PUBACK, PUBCOMP, PUBREL carrying
-    properties (ignored by this router), DISCONNECT and the packets a broker never expects -/
+/-- packets that require no reply get none: QoS 0 PUBLISH, PUBACK, PUBCOMP, DISCONNECT and the
+    packets a broker never expects (a PUBREL carrying MQTT 5 properties is no longer among them: it
+    is handled like any PUBREL, see `pubrel_gets_one_pubcomp`) -/
 theorem no_reply_where_none_is_owed (s s' : RState) (id : Nat) (cid : String) (pkt : Packet) (fl fl' : Flags)
     (c : Conn) (hc : getConn s id = some c)
     (hk : (∃ p, pkt = .publish p ∧ p.qos ≠ 1 ∧ p.qos ≠ 2) ∨ (∃ k, pkt = .puback k) ∨ (∃ k, pkt = .pubcomp k) ∨
-          (∃ k, pkt = .pubrel k true) ∨ pkt = .disconnect ∨ pkt = .other)
+          pkt = .disconnect ∨ pkt = .other)
     (h : handlePacket s id cid pkt fl = .ok (s', fl')) :
     acksOf s' id = some c.acks.committed ∧ Appended s s' id [] := by
   obtain ⟨as, r, a, _⟩ := handlePacket_reply h
   have has : as = [] := by
-    rcases hk with ⟨p, rfl, h1, h2⟩ | ⟨k, rfl⟩ | ⟨k, rfl⟩ | ⟨k, rfl⟩ | rfl | rfl
+    rcases hk with ⟨p, rfl, h1, h2⟩ | ⟨k, rfl⟩ | ⟨k, rfl⟩ | rfl | rfl
     · simpa [IsReplyTo, h1, h2] using r
     all_goals simpa [IsReplyTo] using r
   subst has
@@ -256,9 +258,9 @@ theorem drain_returns_buffer_in_order (s s' : RState) (l : Nat) (o : Out)
     gains exactly one `accepted` event, for `p`, with one `appended` copy per filter index that
     `matches` returned. Under the property's hypothesis that releases come in publish order
     (`p.pkid = pkid`) this is the publish with the released id. -/
-theorem qos2_forward_on_release_only (s s' : RState) (id : Nat) (cid : String) (pkid : Nat) (fl fl' : Flags)
+theorem qos2_forward_on_release_only (s s' : RState) (id : Nat) (cid : String) (pkid : Nat) (hp : Bool) (fl fl' : Flags)
     (c : Conn) (p : Pub) (rest : List Pub) (hc : getConn s id = some c) (hrec : c.acks.recorded = p :: rest)
-    (h : handlePacket s id cid (.pubrel pkid false) fl = .ok (s', fl')) :
+    (h : handlePacket s id cid (.pubrel pkid hp) fl = .ok (s', fl')) :
     recordedOf s' id = some rest ∧
     ∃ evs, s'.ghost = s.ghost ++ [.committed id (.pubcomp pkid)] ++ evs ∧
       ((fl'.disconnect = true ∧ evs = [] ∧ s'.datalog = s.datalog) ∨
@@ -275,9 +277,9 @@ theorem qos2_forward_on_release_only (s s' : RState) (id : Nat) (cid : String) (
 
 /-- a PUBREL that releases nothing (no QoS 2 publish is recorded) forwards nothing: logs and
     retained map are untouched, only the PUBCOMP is registered, and the connection is closed -/
-theorem release_without_publish_forwards_nothing (s s' : RState) (id : Nat) (cid : String) (pkid : Nat)
+theorem release_without_publish_forwards_nothing (s s' : RState) (id : Nat) (cid : String) (pkid : Nat) (hp : Bool)
     (fl fl' : Flags) (c : Conn) (hc : getConn s id = some c) (hrec : c.acks.recorded = [])
-    (h : handlePacket s id cid (.pubrel pkid false) fl = .ok (s', fl')) :
+    (h : handlePacket s id cid (.pubrel pkid hp) fl = .ok (s', fl')) :
     s'.datalog = s.datalog ∧ s'.ghost = s.ghost ++ [.committed id (.pubcomp pkid)] ∧ fl'.disconnect = true :=
   pubrel_nothing_recorded hc hrec h
 
